@@ -355,3 +355,15 @@ package ro
 //@ func (*unicastSubjectImpl).HasObserver
 //@   props C10
 //@   ensures [reads-observer-under-lock] result == (atlock(observer) != nil)
+
+// constructors (modular: callers only learn that the result is a subject, not nil)
+
+//@ func NewUnicastSubject
+//@   props C10 C05
+//@   modular
+//@   ensures [never-nil] result != nil
+
+//@ func NewPublishSubject
+//@   props C10
+//@   modular
+//@   ensures [never-nil] result != nil
